@@ -44,9 +44,30 @@ def run(res, tier, seed, replay):
             res.tie_break(f"refutation certificate (C02_trace_no_false_unsat) no longer checks for an Unsolvable run in "
                           f"{r['stream']}: checker verdict {r['trace']}; the verdict itself agrees with the reference",
                           tc.trace_replay(r))
+        if k in ("sat", "unsat") and "trace" in r and r["trace"].get("run") is False:
+            res.tie_break(f"the logged run is not a legal run of the abstract machine (a propagation whose reason is not unit, or an "
+                          f"illegal decision) in {r['stream']}: checker verdict {r['trace']}; the verdict itself agrees with the reference",
+                          tc.trace_replay(r))
         if k == "sat" and not want:
             res.violation(key, f"solver returned {r['obs']['outcome']['sat']} but no valid selection exists in {r['stream']}",
                           ss.replay_obj(r))
+    if res.tie_breaks and not res.violations and not replay:
+        # search: the trace no longer checks -- look for an input on which the verdict itself is wrong
+        vlib.log("trace tie broken; searching for a failing input (verdict vs reference on a large conflict-heavy burst)")
+        burst, _ = ss.run_streams([("conflict", ss.F_NOSOFT, "sync", "release", 40000), ("conflict", ss.F_NOSOFT & ~8, "sync", "release", 20000)],
+                                  seed + 1001)
+        bref = ss.oracle_ref(burst)
+        for r in burst:
+            k = ss.outcome_kind(r["obs"]["outcome"])
+            want = bref[r["key"]]["solvable"]
+            if want is None:
+                continue
+            if (k == "unsat" and want) or (k == "sat" and not want):
+                res.violation(r["key"], f"solver verdict {k} but reference says solvable={want} (found by the search burst) in {r['stream']}",
+                              ss.replay_obj(r))
+            elif k == "panic":
+                res.violation(r["key"], f"solve panicked during the search burst: {r['obs']['outcome']['panic']}", ss.replay_obj(r))
+        res.extra["search_burst_cases"] = len(burst)
     res.rule = ("hard problems (no soft requirements) from classes small/dense/greedy, all other feature masks, "
                 "debug+release, sync+yield, activity parameters {default,(0,.95),(5,.5),(1,1)}; verdict compared with the "
                 "Coq-verified exhaustive reference; non-trivial = Ok/Unsolvable outcome on a universe with >= 4 solvables")
